@@ -161,7 +161,8 @@ def outer_check(ctx, c, outs):
 
 # ---------------- prop sites (predicates of the property on the implementation) --------
 def _rot(R, d):
-    r = R(np.array(d["q"], float).reshape(tuple(d.get("shape", ())) + (4,)))
+    # the values in a memory layout chosen by the case (C / Fortran / strided view / read-only / negative stride)
+    r = R(common.relayout(np.array(d["q"], float).reshape(tuple(d.get("shape", ())) + (4,)), d["q"]))
     r.improper = np.array(d["i"], bool).reshape(tuple(d.get("shape", ())))
     return r
 
@@ -241,7 +242,7 @@ def outer_prop_check(ctx, c, outs):
             v = Mi(xyz=np.array(c["v"], float).reshape(sb + (3,)), phase=ph)
             v.coordinate_format = "hkl"
         else:
-            v = V(np.array(c["v"], float).reshape(sb + (3,)))
+            v = V(common.relayout(np.array(c["v"], float).reshape(sb + (3,)), c["v"]))
         out = R1.outer(v, lazy=c["lazy"], chunk_size=c["chunk"], progressbar=False) if c["lazy"] else R1.outer(v)
         if tuple(out.shape) != sa + sb:
             return f"outer shape {tuple(out.shape)} != {sa + sb}"
@@ -281,7 +282,7 @@ def bcast_vec_check(ctx, c, outs):
     Q, R, O, M, qmod, V, Mi = _imp()
     R1 = _rot(R, c["r1"])
     sa, sb = tuple(c["r1"]["shape"]), tuple(c["vshape"])
-    v = V(np.array(c["v"], float).reshape(sb + (3,)))
+    v = V(common.relayout(np.array(c["v"], float).reshape(sb + (3,)), c["v"]))
     out = (R1 * v).data
     shp = np.broadcast_shapes(sa, sb)
     if tuple(out.shape[:-1]) != tuple(shp):
@@ -305,8 +306,8 @@ def quat_vec_check(ctx, c, outs):
     Q, R, O, M, qmod, V, Mi = _imp()
     qd = np.array(c["q"], float)
     sa, sb = tuple(c["qshape"]), tuple(c["vshape"])
-    A = Q(qd.reshape(sa + (4,)))
-    v = V(np.array(c["v"], float).reshape(sb + (3,)))
+    A = Q(common.relayout(qd.reshape(sa + (4,)), c["q"]))
+    v = V(common.relayout(np.array(c["v"], float).reshape(sb + (3,)), c["v"]))
     scale = max(1.0, float(np.abs(v.data).max()))
 
     def ref(q, x):                     # rotation by the unit quaternion q/|q| = (a, r): x + 2a r×x + 2 r×(r×x)
